@@ -122,7 +122,7 @@ type twin struct {
 	bg   int64
 }
 
-func startTwin(seed uint64, tie bool, idx int, bg bool, name string) (*twin, error) {
+func startTwin(seed uint64, tie, rts bool, idx int, bg bool, name string) (*twin, error) {
 	exe, err := os.Executable()
 	if err != nil {
 		return nil, err
@@ -130,6 +130,9 @@ func startTwin(seed uint64, tie bool, idx int, bg bool, name string) (*twin, err
 	args := []string{"-mode", "replica", "-seed", fmt.Sprint(seed), "-idx", fmt.Sprint(idx)}
 	if tie {
 		args = append(args, "-tie")
+	}
+	if rts {
+		args = append(args, "-runtimes")
 	}
 	if !bg {
 		args = append(args, "-nobg")
@@ -301,11 +304,15 @@ func (c *c01Run) twinDumps() error {
 
 // ---------- child side ----------
 
-func replicaMain(seed uint64, tie bool, idx int, bg bool) {
+func replicaMain(seed uint64, tie, rts bool, idx int, bg bool) {
 	out := json.NewEncoder(os.Stdout)
 	dec := json.NewDecoder(bufio.NewReaderSize(os.Stdin, 1<<20))
 	c := &c01Run{seed: seed, tie: tie, bg: bg, sum: coqout.NewSummary("child")}
-	g, err := muxdrv.NewGenesis(seed, c01GenesisOpts(seed, tie))
+	gopts := c01GenesisOpts(seed, tie)
+	if rts {
+		gopts.EpochInterval = 3
+	}
+	g, err := muxdrv.NewGenesis(seed, gopts)
 	if err != nil {
 		_ = out.Encode(&wireResp{Err: "genesis: " + err.Error()})
 		return
